@@ -59,7 +59,7 @@ Proof.
     pose proof (row_step_a64_shape r first rg m) as H.
     destruct (row_step_a64 r first rg m); auto. }
   destruct p.
-  - destruct (add64p S_dwarf_svma_add (base_svma md) rel); cbn; try exact I.
+  - destruct (add64p S_dwarf_svma_add (base_svma md) rel); cbn; try exact I; try reflexivity.
     destruct (hdr_lookup sec a); cbn; [apply W | reflexivity].
   - destruct (index_build sec (base_svma md)); cbn; [|reflexivity].
     destruct (index_lookup true l rel); cbn; [|reflexivity].
